@@ -124,6 +124,16 @@ func runUnits(cfg *Config, ld *Loaded, db *SpecDB, keys []string) []*UnitResult 
 					fmt.Printf("  inferred %s %s: %s\n", k, l, strings.Join(names, " ; "))
 				}
 			}
+			if res.Spec != nil && u.houdini == nil {
+				for callee := range res.Spec.Before {
+					if !u.beforeHit[callee] && len(u.errs) == 0 {
+						u.errs = append(u.errs, "spec: 'before "+callee+"' names a call the function does not make")
+					}
+				}
+			}
+			for c, msg := range u.droppedInv {
+				fmt.Printf("NOTE: %s: helper invariant of loop %d no longer applies to the code and was dropped (%s): %s\n", k, c.Loop, msg, trunc(c.Text, 120))
+			}
 			res.Obls = u.obls
 			res.Errs = append(res.Errs, u.errs...)
 			res.Paths = u.paths
